@@ -279,6 +279,84 @@ def fracFromString (s : Str) : Except DecErr Frac :=
       if ps.any (fun p => p.fullDen = 0) then .error .value else fracSum ps
     else .error .value
 
+-- ---------------------------------------------------------------- bound_integers (binary64, modelled exactly)
+
+/-- the candidate denominators of `FractionalSymbolicDuration.bound_integers`, in the order of the source
+    (tied to the live code by `C07.bound_table_matches_source`, Gen/C07Bound.lean) -/
+def BOUND_DENS : List Nat := [2, 3, 4, 5, 6, 7, 8, 9, 10, 12, 14, 16, 18, 20, 22, 24, 28, 32, 48, 64, 96, 128]
+
+def absR (q : Rat) : Rat := if q < 0 then -q else q
+
+/-- the error `bound_integers` gives the candidate denominator `den` for the binary64 quotient `val`:
+    `p = val * den` (one binary64 product), `r = np.round(p)` (half to even);
+    `|r - p|` when `r > 0.9`, else `|1 - p|` (both differences are binary64 subtractions) -/
+def boundDif (val : Rat) (den : Nat) : Rat :=
+  let p := toBinary64 (val * (den : Rat))
+  let r : Int := roundHalfEven p
+  if 1 ≤ r then absR (toBinary64 ((r : Rat) - p)) else absR (toBinary64 (1 - p))
+
+/-- `np.argmin` over the candidates: a later candidate wins only when strictly better -/
+def bestDen (val : Rat) : List Nat → Nat → Rat → Nat
+  | [], best, _ => best
+  | d :: r, best, bv => if boundDif val d < bv then bestDen val r d (boundDif val d) else bestDen val r best bv
+
+def chooseDen (val : Rat) (dens : List Nat) : Nat :=
+  match dens with
+  | [] => 0
+  | d :: r => bestDen val r d (boundDif val d)
+
+/-- `np.sign(numerator) * np.sign(denominator) * np.sign(tuple_div)` for non-negative integers -/
+def boundSign (n d : Nat) (t : Option Nat) : Nat := if n = 0 ∨ d = 0 ∨ t = some 0 then 0 else 1
+
+/-- `bound_integers(1024)`: numerator and denominator after the constructor.  Within the bound (1024 itself
+    included) nothing changes; beyond it the binary64 quotient is approximated over the best of the candidate
+    denominators.  `none` = the code raises (`int(np.round(inf))` for a zero denominator). -/
+def boundInts (n d : Nat) (t : Option Nat) : Option (Nat × Nat) :=
+  if n > BOUND ∨ d > BOUND then
+    if d = 0 then none else
+    let val := toBinary64 ((n : Rat) / (d : Rat))
+    let den := chooseDen val BOUND_DENS
+    let k : Int := roundHalfEven (toBinary64 (val * (den : Rat)))
+    some (if k < 1 then boundSign n d t else boundSign n d t * k.toNat, den)
+  else some (n, d)
+
+/-- the constructor, total: `none` only where the code raises -/
+def Frac.mkB (n d : Nat) (t : Option Nat) : Option Frac :=
+  (boundInts n d t).map fun r => { num := r.1, den := r.2, tdiv := t, add := none }
+
+/-- `__add__`, total (zero denominators excepted: numpy's lcm / floor division are meaningless there) -/
+def Frac.addB (a b : Frac) : Option Frac :=
+  let da := a.fullDen
+  let db := b.fullDen
+  let l := Nat.lcm da db
+  if da = 0 ∨ db = 0 then none else
+  let n := (l / da) * a.num + (l / db) * b.num
+  (boundInts n l none).map fun r =>
+    { num := r.1, den := r.2, tdiv := none, add := some ((a.comps ++ b.comps).filter (fun c => c.1 != 0)) }
+
+def fracSumB (parts : List Frac) : Except DecErr Frac :=
+  parts.foldlM (fun acc p => match Frac.addB acc p with
+    | some r => .ok r
+    | none => .error .value) { num := 0, den := 1, tdiv := none, add := none }
+
+/-- `FractionalSymbolicDuration.from_string(s, allow_additions=True)` with `bound_integers` modelled:
+    agrees with `fracFromString` wherever that is defined (`C07.fracFromStringB_refines`) -/
+def fracFromStringB (s : Str) : Except DecErr Frac :=
+  let one (x : Str) : Except DecErr Frac :=
+    match fracSimple x with
+    | none => .error .value
+    | some (n, d, t) => match Frac.mkB n d t with
+      | some f => .ok f
+      | none => .error .value
+  match fracSimple s with
+  | some (n, d, t) => (match Frac.mkB n d t with | some f => .ok f | none => .error .value)
+  | none =>
+    let parts := splitOn '+' s
+    if parts.length > 1 then do
+      let ps ← parts.mapM one
+      if ps.any (fun p => p.fullDen = 0) then .error .value else fracSumB ps
+    else .error .value
+
 -- ---------------------------------------------------------------- key signatures
 
 structure Key1 where
@@ -492,6 +570,13 @@ def decTsig (s : Str) : Except DecErr TimeSig := do
   | [] => .error .value
   | f :: r => .ok { num := f.num, den := f.den, others := r }
 
+/-- `MatchTimeSignature.from_string` with `bound_integers` modelled (`C07.decTsigB_refines`) -/
+def decTsigB (s : Str) : Except DecErr TimeSig := do
+  let fs ← (decList (strip s)).mapM fracFromStringB
+  match fs with
+  | [] => .error .value
+  | f :: r => .ok { num := f.num, den := f.den, others := r }
+
 def encVersion (a b c : Nat) : Str := showNatS a ++ '.' :: showNatS b ++ '.' :: showNatS c
 
 /-- `interpret_version`: `^(\d+)\.(\d+)\.(\d+)` else `^(\d+)\.(\d+)` (a prefix match) -/
@@ -576,12 +661,12 @@ def decode (d : Dec) (s : Str) : Except DecErr Val :=
   | .float => (liftO (parseDecimal s)).map Val.dec
   | .str => .ok (.str s)
   | .strOld => .ok (.str (decStrOld s))
-  | .frac => (fracFromString s).map Val.frac
+  | .frac => (fracFromStringB s).map Val.frac
   | .list => .ok (.strs (decList s))
   | .listInt => (liftO (decListInt s)).map Val.ints
   | .version => (liftO (decVersion s)).map fun (a, b, c) => Val.ver a b c
   | .key => (liftO (decKey s)).map fun k => match k with | some k => Val.key k | Option.none => Val.none
-  | .tsig => (decTsig s).map Val.tsig
+  | .tsig => (decTsigB s).map Val.tsig
   | .tempo => (liftO (decTempo s)).map Val.tempo
   | .byAttr => .error .unmodelled
   | .unmodelled => .error .unmodelled
